@@ -193,3 +193,39 @@ W("C20", "source read without size", CO, "        data = fd.read(self._block_siz
 W("C20", "_read_data reads the whole remainder", CO, "        read_size = min(rest_size - unused_s, self.block_size - unused_s)\n", "        read_size = rest_size - unused_s\n", "R20.2")
 W("C20", "decode loop requests the whole member", PY, "            tmp = decompressor.decompress(fp, min(out_remaining, max_block_size))\n", "            tmp = decompressor.decompress(fp, out_remaining)\n", "R20.4")
 W("C20", "PPMd decoder ignores max_length", CO, "        return self.decoder.decode(data, max_length)\n", "        return self.decoder.decode(data, -1)\n", "R20.1")
+
+
+# ---------------------------------------------------------------- re-anchored fragments
+# The repaired tree moved on under some witnesses: the same mutation, expressed against the current text (old fragment, mutated fragment).
+_REANCHOR = {
+    "parallel extraction although links are present": (
+        "        parallel = not self.password_protected and not self._filePassed and not has_links and not in_memory and not renamed\n",
+        "        parallel = not self.password_protected and not self._filePassed and not in_memory and not renamed\n"),
+    "regular file: CRC compare only when callback queue given": (
+        "                        if f.crc32 is not None and crc32 != f.crc32:\n                            if not isinstance(fileish, MemIO):",
+        "                        if q is not None and f.crc32 is not None and crc32 != f.crc32:\n                            if not isinstance(fileish, MemIO):"),
+    "_read_digest decrements by what was read": (
+        "            if len(data) == 0:\n                break  # the file ends before the declared packed size\n", "            pass\n"),
+    "close flushes regardless of mode": (
+        "            if \"w\" in self.mode or \"x\" in self.mode:\n                self._write_flush()\n", "            self._write_flush()\n"),
+    "signature header before the header": (
+        "        \"\"\"Write header and update signature header.\"\"\"\n        (header_pos, header_len, header_crc) = self.header.write(",
+        "        \"\"\"Write header and update signature header.\"\"\"\n        self.sig_header.write(self.fp)\n        (header_pos, header_len, header_crc) = self.header.write("),
+    "trailing write after the commit": (
+        "            if \"a\" in self.mode:\n                self._write_flush()\n", "            if \"a\" in self.mode:\n                self._write_flush()\n                self.fp.write(b\"\")\n"),
+    "rollback removed from write()": (
+        "        except Exception:\n            # the source could not be archived: forget the member so that the archive stays consistent\n            self.header.files_info.files.pop()\n            self.header.files_info.emptyfiles.pop()\n            self.files.pop()\n            # what has already gone into the packed stream cannot be taken back\n            self._broken = self._broken or folder.get_compressor().consumed != taken\n            raise\n\n    def writef",
+        "        except Exception:\n            raise\n\n    def writef"),
+    "rollback forgets self.files": (
+        "                self.header.files_info.files.pop()\n                self.header.files_info.emptyfiles.pop()\n                self.files.pop()\n                # what has already gone",
+        "                self.header.files_info.files.pop()\n                self.header.files_info.emptyfiles.pop()\n                # what has already gone"),
+    "__exit__ closes only without exception": (
+        "    def __exit__(self, exc_type, exc_val, exc_tb):\n        try:\n            self.close()\n",
+        "    def __exit__(self, exc_type, exc_val, exc_tb):\n        try:\n            if exc_type is None:\n                self.close()\n"),
+    "handle closed before the reporter is joined": (
+        "        try:\n            if \"w\" in self.mode or \"x\" in self.mode:\n                self._write_flush()\n",
+        "        self._fpclose()\n        try:\n            if \"w\" in self.mode or \"x\" in self.mode:\n                self._write_flush()\n"),
+}
+for _w in WITNESSES:
+    if _w["name"] in _REANCHOR:
+        _w["old"], _w["new"] = _REANCHOR[_w["name"]]
